@@ -20,6 +20,14 @@ def handleLine (fs : List (List String)) : Option String :=
   | [["qlclines"]] => some "L "
   | [["msaline"], toks] =>
     some ("L " ++ " , ".intercalate ((parseMsaLine (toks.map nat!)).map fun f => if f.isEmpty then "e" else " ".intercalate (f.map toString)))
+  | [["metaline"], toks] =>
+    -- one written line (code points): the kind of the line and, for a meta line, key and value as read
+    let line := toks.map nat!
+    let show_ := fun (f : List Nat) => if f.isEmpty then "e" else " ".intercalate (f.map toString)
+    (match kind line, parseMeta line with
+     | .metaL, some (k, v) => some ("K " ++ show_ k ++ " , " ++ show_ v)
+     | .metaL, none => some "ERR"
+     | _, _ => some "NOTMETA")
   | _ => none
 
 end Verif.Driver
